@@ -286,6 +286,7 @@ type workerResult struct {
 	WallS       float64           `json:"wall_s"`
 	LogHash     uint64            `json:"log_hash"`
 	Draws       int64             `json:"draws"`
+	DetHash     string            `json:"det_hash,omitempty"` // bytes of a fixed Deterministic(true) marshal, compared across processes
 }
 
 const maxSigs = 1 << 19
@@ -473,6 +474,11 @@ func workerLoop(spec *propSpec, prop, tier string, seed uint64, w, first, runs i
 		if len(res.Violations) >= 3 {
 			break
 		}
+	}
+	if prop == "C18" {
+		a, _, _ := scen.DetMapBytes(37)
+		sum := sha256.Sum256(a)
+		res.DetHash = hex.EncodeToString(sum[:8])
 	}
 	res.Steps = stats.Steps
 	for k, v := range stats.Faults {
@@ -959,6 +965,27 @@ func cmdCheck(args []string) int {
 		fmt.Printf("KNOWN-FINDING: property=%s class=%s site=%s %s (reproduced %d times in this run)\n", k.Property, k.Class, k.Site, k.Text, n)
 	}
 	if *prop == "C18" {
+		// Deterministic(true): identical bytes across processes (Go seeds its
+		// map iteration differently in every process)
+		hashes := map[string]int{}
+		for _, r := range results {
+			if r.DetHash != "" {
+				hashes[r.DetHash]++
+			}
+		}
+		m.Probes[fmt.Sprintf("hist/deterministic-across-%d-processes", len(results))] = int64(len(hashes))
+		if len(hashes) > 1 {
+			rf := map[string]any{"format": 1, "property": "C18", "class": "C18/deterministic-differs-across-processes", "scenario": "hist", "base_seed": seed,
+				"violation": map[string]any{"property": "C18", "class": "C18/deterministic-differs-across-processes", "detail": fmt.Sprintf("Marshal(fixed map, Deterministic(true)) hashed differently in different worker processes: %v", hashes)},
+				"note": "re-run `bin/verifsim worker -prop C18 -runs 1` several times and compare det_hash"}
+			b, _ := json.MarshalIndent(rf, "", " ")
+			path := filepath.Join(verifDir, "replays", fmt.Sprintf("C18-%d-deterministic-across-processes.json", seed))
+			os.MkdirAll(filepath.Dir(path), 0o755)
+			os.WriteFile(path, b, 0o644)
+			fmt.Printf("violation: class=C18/deterministic-differs-across-processes %v\n", hashes)
+			lines = append(lines, "VIOLATION property=C18 replay="+path)
+			confirmed++
+		}
 		ev, rl, rc := auxRace(seed, *tier)
 		auxRaceEvidence = ev
 		lines = append(lines, rl...)
